@@ -31,6 +31,11 @@ META = {
         "integer contracts of BigInt::multiply (exact product) and BigInt::divide_std_dword<|x|> (a = q d + rem) are ASSUMED in the decomposition units (not yet enforced by a BV unit)",
         "loop-cut representative index: the digit loops are checked at one representative position i; every other digit cell is poisoned, so any other access would be reported",
         "termination of rejection / retry loops is not verified"]),
+    "C09": dict(level="proof", assumptions=[
+        "TRUSTED STUBS state the C02/C04 contracts of the field layer on plain integers: Fq::read_big_endian = (BE & 2^381-1) mod q, Fq::write_big_endian = BE of a canonical value (asserted), negate / compare on integers mod q; the Montgomery representation is irrelevant to the byte logic",
+        "get_point_from_x / is_on_curve / is_in_correct_subgroup_assuming_on_curve are recorded oracles inside the decode units; their own contracts: RING units (get_point_from_x: y in {s,-s}, sign rule; is_on_curve: y^2 = x^3 + b) and the C06 double-and-add unit (multiplication by r)",
+        "round trip decode(encode(g)) = g is the composition of the two byte-exact contracts (paper step), given sqrt(y^2) in {y,-y} and y != -y on the odd-order subgroups",
+        "Fq::compare is a total order with compare(-a,-b) antisymmetric (C02 rung)"]),
     "C15": dict(level="proof", assumptions=[
         "TRUSTED STUBS (ghost recorders) stand in for Encoding::encode/decode, Affine::from_projective, Projective::from_affine, Fq12::read/write_big_endian and pairing in the marshal/unmarshal units: they record (offset, length, source tag) and touch the first and last byte of their region; what the encoders themselves do is C09 / C04",
         "round trip = (this check: unmarshal reads component k from exactly the region where marshal wrote component k, regions tile the buffer, flag byte and big-endian slot index exact) + (C09: decode(encode(g)) = g) + (C05: from_affine(from_projective(P)) ~ P)",
